@@ -25,6 +25,7 @@ package rules
 import (
 	"go/ast"
 	"go/constant"
+	"go/token"
 	"go/types"
 	"sort"
 	"strings"
@@ -357,15 +358,21 @@ type c04PolicyCase struct {
 }
 
 // c04PolicyCases evaluates the switch of NewLoadBalancer.
-func c04PolicyCases(c *core.Ctx, pkg *packages.Package, fd *ast.FuncDecl) (cases []c04PolicyCase, outside *c04TypeSet, sw *ast.SwitchStmt) {
+func c04PolicyCases(c *core.Ctx, pkg *packages.Package, fd *ast.FuncDecl) (cases []c04PolicyCase, outside *c04TypeSet, disp ast.Node) {
 	newLB, _ := pkg.TypesInfo.Defs[fd.Name].(*types.Func)
 	t := &c04Typer{c: c, newLB: newLB, busy: map[*types.Func]bool{newLB: true}}
+	var sw *ast.SwitchStmt
 	ast.Inspect(fd.Body, func(n ast.Node) bool {
 		if s, ok := n.(*ast.SwitchStmt); ok && sw == nil && s.Tag != nil {
 			sw = s
 		}
 		return sw == nil
 	})
+	if sw == nil {
+		if cs, at := c04PolicyTable(c, t, pkg, fd); at != nil {
+			return cs, nil, at
+		}
+	}
 	if sw == nil {
 		return nil, nil, nil
 	}
@@ -466,6 +473,187 @@ func c04PolicyCases(c *core.Ctx, pkg *packages.Package, fd *ast.FuncDecl) (cases
 		outside = nil
 	}
 	return cases, outside, sw
+}
+
+// c04PolicyTable handles the table form of the dispatch:
+//
+//	factory, ok := factories[spec.Policy]; if !ok { factory = newRoundRobin }; return factory(spec, servers)
+//
+// with factories a package-level map literal from policy constants to constructor functions that
+// is never modified. One case per map entry, "<other>" for the fallback assignment(s).
+func c04PolicyTable(c *core.Ctx, t *c04Typer, pkg *packages.Package, fd *ast.FuncDecl) ([]c04PolicyCase, ast.Node) {
+	info := pkg.TypesInfo
+	// return v(args) with v a local function variable
+	var v types.Object
+	var retCall *ast.CallExpr
+	nret := 0
+	ast.Inspect(fd.Body, func(n ast.Node) bool {
+		if _, ok := n.(*ast.FuncLit); ok {
+			return false
+		}
+		rs, ok := n.(*ast.ReturnStmt)
+		if !ok {
+			return true
+		}
+		nret++
+		if len(rs.Results) == 1 {
+			if call, ok := ast.Unparen(rs.Results[0]).(*ast.CallExpr); ok {
+				if id, ok := ast.Unparen(call.Fun).(*ast.Ident); ok {
+					if lv, ok := c04ObjOf(info, id).(*types.Var); ok && !lv.IsField() && lv.Parent() != lv.Pkg().Scope() {
+						if _, isSig := lv.Type().Underlying().(*types.Signature); isSig {
+							v, retCall = lv, call
+						}
+					}
+				}
+			}
+		}
+		return true
+	})
+	if v == nil || nret != 1 {
+		return nil, nil
+	}
+	// parameters of the constructors that receive configuration only
+	specArg := make([]bool, len(retCall.Args))
+	if sig, ok := t.newLB.Type().(*types.Signature); ok {
+		env := c04Env{}
+		for i := 0; i < sig.Params().Len(); i++ {
+			if _, isSlice := sig.Params().At(i).Type().Underlying().(*types.Slice); !isSlice {
+				env[sig.Params().At(i)] = true
+			}
+		}
+		for i, a := range retCall.Args {
+			specArg[i] = t.specOnly(pkg, a, env)
+		}
+	}
+	funcTypes := func(e ast.Expr, at ast.Node, label string) c04PolicyCase {
+		pc := c04PolicyCase{label: label, at: at, set: &c04TypeSet{types: map[string]types.Type{}}}
+		e = ast.Unparen(e)
+		var fo *types.Func
+		switch x := e.(type) {
+		case *ast.Ident:
+			fo, _ = c04ObjOf(info, x).(*types.Func)
+		case *ast.SelectorExpr:
+			fo, _ = info.Uses[x.Sel].(*types.Func)
+		}
+		if fo == nil {
+			pc.set.unknown = "the table entry is not a named function"
+			return pc
+		}
+		cp, cd := c04DeclOf(c, fo)
+		if cd == nil {
+			pc.set.unknown = "no source for " + fo.FullName()
+			return pc
+		}
+		cenv := c04Env{}
+		sig := fo.Type().(*types.Signature)
+		for i := 0; i < sig.Params().Len() && i < len(specArg); i++ {
+			if specArg[i] {
+				cenv[sig.Params().At(i)] = true
+			}
+		}
+		pc.set.add(t.returnTypes(cp, cd, cd.Body, cenv, 1))
+		return pc
+	}
+	var cases []c04PolicyCase
+	var table *types.Var
+	var at ast.Node
+	bad := false
+	ast.Inspect(fd.Body, func(n ast.Node) bool {
+		as, ok := n.(*ast.AssignStmt)
+		if !ok {
+			return true
+		}
+		for i, l := range as.Lhs {
+			id, ok := l.(*ast.Ident)
+			if !ok || c04ObjOf(info, id) != v {
+				continue
+			}
+			switch {
+			case len(as.Rhs) == 1 && i == 0:
+				ix, isIx := ast.Unparen(as.Rhs[0]).(*ast.IndexExpr)
+				if !isIx {
+					if len(as.Lhs) == 1 {
+						cases = append(cases, funcTypes(as.Rhs[0], as, "<other>"))
+						continue
+					}
+					bad = true
+					continue
+				}
+				mid, isID := ast.Unparen(ix.X).(*ast.Ident)
+				mv, _ := c04ObjOf(info, mid).(*types.Var)
+				if !isID || mv == nil || mv.Pkg() == nil || mv.Parent() != mv.Pkg().Scope() || table != nil {
+					bad = true
+					continue
+				}
+				table, at = mv, ix
+			case len(as.Lhs) == len(as.Rhs):
+				cases = append(cases, funcTypes(as.Rhs[i], as, "<other>"))
+			default:
+				bad = true
+			}
+		}
+		return true
+	})
+	if table == nil || bad {
+		return nil, nil
+	}
+	// the table literal, and no other write to the table in the package
+	var lit *ast.CompositeLit
+	for _, file := range pkg.Syntax {
+		ast.Inspect(file, func(n ast.Node) bool {
+			switch x := n.(type) {
+			case *ast.ValueSpec:
+				for i, name := range x.Names {
+					if info.Defs[name] == types.Object(table) && i < len(x.Values) {
+						lit, _ = ast.Unparen(x.Values[i]).(*ast.CompositeLit)
+					}
+				}
+			case *ast.AssignStmt:
+				for _, l := range x.Lhs {
+					l = ast.Unparen(l)
+					if ix, ok := l.(*ast.IndexExpr); ok {
+						l = ast.Unparen(ix.X)
+					}
+					if id, ok := l.(*ast.Ident); ok && info.Uses[id] == types.Object(table) {
+						bad = true
+					}
+				}
+			case *ast.UnaryExpr:
+				if id, ok := ast.Unparen(x.X).(*ast.Ident); ok && x.Op == token.AND && info.Uses[id] == types.Object(table) {
+					bad = true
+				}
+			case *ast.CallExpr:
+				if b, ok := c04Callee(info, x).(*types.Builtin); ok && (b.Name() == "delete" || b.Name() == "clear") && len(x.Args) > 0 {
+					if id, ok := ast.Unparen(x.Args[0]).(*ast.Ident); ok && info.Uses[id] == types.Object(table) {
+						bad = true
+					}
+				}
+			}
+			return true
+		})
+	}
+	if lit == nil || bad {
+		return nil, nil
+	}
+	for _, el := range lit.Elts {
+		kv, ok := el.(*ast.KeyValueExpr)
+		if !ok {
+			return nil, nil
+		}
+		tv, ok := info.Types[kv.Key]
+		if !ok || tv.Value == nil || tv.Value.Kind() != constant.String {
+			return nil, nil
+		}
+		p := constant.StringVal(tv.Value)
+		label := p
+		if p == "" {
+			label = `""`
+		}
+		pc := funcTypes(kv.Value, kv, label)
+		pc.policies = []string{p}
+		cases = append(cases, pc)
+	}
+	return cases, at
 }
 
 // c04OneType emits the obligations.
